@@ -11,7 +11,7 @@ CHECKS = {
          "Seeded exploration over (protocol, n, t, identifier alphabet, scheduler); the oracle compares tables across parties, own share vs own entry, and reconstructs from every enumerated (t+1)-subset of secrets and of table entries; a t-subset must not reconstruct.",
          "Trusts verif/ref Lagrange and secp256k1; CMP primes from the pool (hook H1).", "5/C02"),
  "C17": ("exploration", "Go race detector over multi-goroutine handler workloads + offline lifecycle history checking (porcupine nondeterministic write-once model, close-exactly-once and terminal/closed invariants)",
-         "Every party's handler is driven concurrently by feeders (CanAccept+Accept, duplicates), a drainer, pollers and a stopper at seeded points, then by post-end call sequences, for detproto, FROST, Doerner and CMP sign with a pool, in a -race build: repository-internal race reports are violations; recorded call/return histories are checked for panics, exactly-once close, closed<=>terminal, Stop effect, write-once Result (linearizability), nothing emitted after the end, no blocked call.",
+         "Every party's handler is driven concurrently by feeders (CanAccept+Accept, duplicates, and peer messages with one field replaced by CBOR null so that the panic-recovery path runs under concurrency), a drainer, pollers and a stopper at seeded points, then by post-end call sequences, for detproto, FROST, Doerner and CMP sign with a pool, in a -race build: repository-internal race reports are violations; recorded call/return histories are checked for panics, exactly-once close, closed<=>terminal, Stop effect, write-once Result (linearizability), nothing emitted after the end, no blocked call.",
          "Race reports depend on the interleavings that occurred; parties never share objects; checker timeouts are inconclusive.", "5/C17"),
  "C18": ("exploration", "runtime monitoring with verif yield hooks: pairwise gates and seeded yield vectors at the pool's synchronisation points, hook-free stress, goroutine-dump conservation oracle",
          "Explores interleavings of caller and workers by holding a worker point until a caller point happened (and the reverse) for every pair and small configurations, by seeded yield vectors, and by stress with instant tasks; oracles are exact results, exactly-once evaluation, genuine distinct Search results, return (deadlock decided from a goroutine dump), and no worker parked in chan send after a call returned.",
@@ -23,22 +23,22 @@ CHECKS = {
          "For every protocol and corrupted position, every leaf of every message of the corrupted participant x typed alterations x echo-consistent / wire-only delivery, plus whole-message substitutions, one fault per run; every honest party must be unfinished, failed, or hold a correct result consistent with every other honest finisher. Complete catalogues for FROST/Doerner, stratified samples (quick) or complete (thorough) for CMP.",
          "One deviating participant; a panic of an honest party counts as not finished here (C05 judges it).", "5/C03"),
  "C04": ("fault_enumeration", "runtime monitoring: the C03 fault campaigns judged by a culprit oracle with simulator ground truth, plus reflective state-level deviations of a CMP presigner in the offline, full and online variants",
-         "Culprit soundness (named parties are the corrupted one; relayed aborts name a real notice sender; no self-blame; verification failures attributed to the sender) over the whole catalogue, and identifiable abort (every honest signer ends with culprits=[cheater]) for wrong chi / gamma / delta / sigma contributions whose individual proofs all pass.",
+         "Culprit soundness (named parties are the corrupted one; relayed aborts name a real notice sender; no self-blame; verification failures attributed to the sender) over the whole catalogue, and identifiable abort (every honest signer ends with culprits=[cheater]) for wrong chi / gamma / delta / sigma contributions whose individual proofs all pass; CMP keygen / refresh against a cheater sharing with a polynomial of degree t-1 (whoever refuses names the cheater, nobody names itself).",
          "State is altered by reflection between deliveries; abort notices are suppressed in identifiable-abort runs.", "5/C04"),
  "C05": ("fault_enumeration", "runtime monitoring in sacrificial child processes: hostile messages substituted into real sessions at the handler boundary (L1), high-throughput round-level feeding with boundary re-execution (L2), decoder fuzzing; per-call CPU/allocation meters, RLIMIT_AS, journalled inputs for crash attribution",
          "Every field path of every message type of every protocol x structural malformations, header malformations and random corruptions, early (possibly queued) and late (last awaited) timing; oracles per Accept call: no panic or process death, CPU <= 60 s, allocation <= 1 GiB, no blocked call, legal post-state. CMP breadth comes from L2 (thousands of payloads on the victim's round object) whose hits only count when they reproduce at the boundary.",
-         "Per-call meters are process-wide (one case at a time per child); a watchdog without provable block/overrun is inconclusive; pool is nil in the sessions (worker panics are covered by the pool fix and C18).", "5/C05"),
+         "Per-call meters are process-wide (one case at a time per child); a watchdog without provable block/overrun is inconclusive; a third of the CMP / Doerner instances run with a worker pool; restore calls of every stored type are additionally measured with oversized numbers (8 KiB / 64 KiB, constructed to survive trial division) in every field, decided on CPU time consumed.", "5/C05"),
  "C06": ("fault_enumeration", "runtime monitoring: shielded twin handlers (two real handlers with one identity, forked randomness at round k) as the equivocator, every bipartition of the honest parties, offline view-consistency checker over the simulator log",
          "For every MultiHandler protocol, non-final broadcast round k, equivocator position and bipartition (sampled for the expensive ones), the two groups receive individually valid but different payloads; twins are shielded so that only the honest handlers' echo comparison can stop the session; two honest finishers with different recorded views are the violation. A wire-only one-byte flip is the weak variant.",
          "Twins coincide up to round k-1 through identical deterministic randomness streams; honest-to-honest traffic is never modified.", "5/C06"),
  "C07": ("exploration", "runtime monitoring: stateless DFS with sleep sets over all causally permitted delivery interleavings of a deterministic protocol run by the real MultiHandler, plus sampled adversarial schedules on the real protocols under party-keyed deterministic randomness",
-         "Exhaustive for n=2 (all rounds, plus one duplicate at every later position) and n=3 rounds 2-3 (thorough; budgeted in quick); sampled random/reverse/starve schedules with duplicates, stale replays and foreign-session injections for FROST, Taproot, Doerner and CMP sign; results must be bit-identical to the in-order run whenever a party's draw sequence is identical, correct and agreed otherwise.",
+         "Exhaustive for n=2 (all rounds, plus one duplicate at every later position); n=3 (rounds 2-3 and 2-4) per first-delivery sub-tree under a leaf budget in both tiers (complete enumeration measured at hours per sub-tree), evidence counts completed / incomplete sub-trees; sampled random/reverse/starve schedules with duplicates, stale replays and foreign-session injections (including abort notices of a third, user-stopped session) for FROST, Taproot, Doerner and CMP sign; results must be bit-identical to the in-order run whenever a party's draw sequence is identical, correct and agreed otherwise.",
          "Sleep-set reduction assumes deliveries to different parties commute (no shared objects); exhaustive flag only when all DFS sub-trees completed.", "5/C07"),
  "C09": ("fault_enumeration", "runtime monitoring: session-tag lattice, cross-session replay at every delivery step, and echo-consistent transfer of proof/commitment-carrying messages between senders and sessions",
          "Pairs of session descriptions differing in exactly one parameter (incl. adversarial identifier families) must have different tags; every message of a session A is offered to every party of a session B after every step (CanAccept false; forced delivery harmless); a corrupted party's proof-carrying messages are replaced by another party's or by its own from another session and must be refused at the round that verifies them.",
          "Only secp256k1 exists (curve dimension degenerate); tags read by reflection from the round object.", "5/C09"),
  "C08": ("exploration", "runtime monitoring: seeded operation histories through real handlers with per-step oracles (key unchanged, material consistent, shares changed, mixed epochs useless, stale signer => no signature)",
-         "Histories over {refresh, serialise+restore, derive, sign} for FROST, Taproot, Doerner and CMP on (n,t) lattices; after each refresh the oracles of the statement are evaluated, including every enumerated mixed-epoch reconstruction set and sessions with 1..t stale signers.",
+         "Histories over {refresh, serialise+restore, derive, sign} for FROST, Taproot, Doerner and CMP on (n,t) lattices; after each refresh the oracles of the statement are evaluated, including every enumerated mixed-epoch reconstruction set and sessions with 1..t stale signers; refreshes cut short at every round (share must stay), against a peer echoing the refresh contribution, and against a peer running from a share of its own choosing (honest finishers keep the group key).",
          "Epoch snapshots through the documented encoders; t=0 is exempt from 'share changed' (mathematically impossible).", "5/C08"),
  "C14": ("exploration", "runtime monitoring: differential against a reference BIP-32 CKDpub on every party after real key generations, plus material oracle and signing under the reference-derived key",
          "Derivation paths of length <=3 over boundary and random indices, interleaved with refresh, for all four protocols; child key and chain code compared with the reference on every party, derived sharing validated, signing judged by the independent verifier.",
@@ -56,7 +56,7 @@ CHECKS = {
          "Bit-exact comparison of EncWithNonce/Add/Mul with the reference, Dec inverse, randomness recovery, acceptance set of ValidateCiphertexts/Dec, refusal outside [-(N-1)/2,(N-1)/2], Modulus.Exp/ExpI on edge operands, and alpha+beta=a*b over the integers for MtA on a scalar lattice with verified proofs.",
          "Trusts verif/ref Paillier; keys from the prime pool.", "5/C12"),
  "C13": ("exploration", "runtime monitoring: direct drive of internal/ot with reflective access to results and reflection-driven single-field message alterations",
-         "Defining relations of random/correlated/extended/additive OT for every batch index and degenerate choice vectors, products on a boundary lattice with setup reuse, and single-field alterations of all setup and online messages with the error-or-still-correct oracle.",
+         "Defining relations of random/correlated/extended/additive OT for every batch index and degenerate choice vectors, products on a boundary lattice with setup reuse, and single-field alterations of all setup and online messages with the error-or-still-correct oracle (a panic is neither).",
          "Reads unexported result fields with reflect+unsafe; oracle arithmetic is math/big.", "5/C13"),
  "C20": ("fault_enumeration", "runtime monitoring: start-function lattice of single invalid parameters under recover, with follow-up sessions in the simulator when construction succeeds",
          "Every start function of every protocol is called with one invalid parameter from a lattice of bad thresholds, identifier lists, signer sets, messages, key material (nil, empty, field-stripped) and presignatures; construction must return an error and never panic; if it succeeds the session runs with valid peers and must complete correctly (parameter harmless) - a panic, wrong result or harmed honest peer is a violation; valid controls must start and complete.",
